@@ -1009,6 +1009,22 @@ def r_cache(m, rep, R):
             ok = sc[0][2][2] == V(bind['y'])
         rep.check(ok, R, w2, 'cache:%s:callback' % kind, '%s lookup asks the %s callback with the same ids' % (kind, kind),
                   '%s lookup calls scaffold as %s' % (kind, [show(x) for x in sc]))
+        # what the callback filled in is what is stored: the result vector is touched by nothing between the callback
+        # and the cache (positions in it are the rule ids the finalizer indexes with)
+        sc_nodes = [n for n in fn2.find('CallExpr') if strip(n.kids[0]).ref == m.p_scaffold]
+        if len(sc_nodes) == 1 and len(sc_nodes[0].kids) == 5:
+            res_refs = [x for x in sc_nodes[0].kids[4].walk() if x.kind == 'DeclRefExpr' and x.ref]
+            if res_refs:
+                rv = res_refs[0].ref
+                inside = set()
+                for holder in sc_nodes + [mm[1] for mm in muts]:
+                    for x in holder.walk():
+                        inside.add(id(x))
+                other = [x for x in fn2.find('DeclRefExpr') if x.ref == rv and id(x) not in inside]
+                rep.check(not other, R, w2, 'cache:%s:stored-unchanged' % kind,
+                          'the vector filled by the %s callback goes into the cache untouched (rule ids are positions in it)' % kind,
+                          'the result vector `%s` is also used at line(s) %s between the callback and the cache: entries may be dropped or moved, and rule ids no longer index the grammar\'s result list'
+                          % (rv, sorted({x.line for x in other if x.line})))
 
 
 def r_items_immutable(m, rep, R):
@@ -1177,6 +1193,12 @@ def r_beam(m, rep, R):
     if cand_loop is None:
         rep.violation(R, s.where(), 'beam:loop', 'leaf push is not inside a per-word candidate loop')
         return
+    # top() of the candidate queues must be the best remaining candidate: default (max-heap) ordering on (score, id)
+    st_ = getattr(m, 'scored_type', '')
+    maxheap = 'std::greater' not in st_ and ('std::less' in st_ or st_.count('priority_queue<') == 1 and ', ' not in st_.split('priority_queue<', 1)[1].split('std::pair', 2)[-1].split('>>')[0])
+    rep.check('std::greater' not in st_, R, s.where(), 'beam:queue-order',
+              'the per-word candidate queues are max-heaps: top() is the best remaining tag',
+              'the per-word candidate queues order with std::greater: top() is the weakest candidate, so the beta threshold and the best-tag estimate are taken from the wrong end')
     v, lo, cond, step, body = m._loop_header(cand_loop)
     q = IDX(V(m.scored), tv)
     cs = [canon(c) for c in conjuncts(cond)]
